@@ -25,11 +25,6 @@ Cells == { Str(<<"a">>), Str(<<"1", ".", "0">>), Str(<<" ", "x", " ">>), Str(<<>
     \cup { [k |-> "time", sec |-> s] : s \in Seconds }
 FewCells == { Str(<<"a">>), [k |-> "empty"], Whole(FALSE, <<"7">>), Dy(FALSE, 1, 1), [k |-> "bool", b |-> TRUE],
               [k |-> "date", serial |-> SerialOfCivil(2020, 2, 29)], [k |-> "time", sec |-> 3601] }
-\* thorough tier: a sweep through the calendar (every 97th day from 1900-03-01 to 9999-12-31) and through the day
-\* (every 7th second), and date-times combining both
-SweepCells == { [k |-> "date", serial |-> 61 + 97 * i] : i \in 0..30499 }
-         \cup { [k |-> "time", sec |-> 7 * i] : i \in 0..12342 }
-         \cup { [k |-> "datetime", serial |-> 61 + 9973 * i, sec |-> (4799 * i) % 86400] : i \in 0..296 }
 OneSheet == {<<1, 1>>}
 AllSheets == {<<n, k>> : n \in 1..3, k \in 1..4}
 =============================================================================
